@@ -6,6 +6,7 @@ import struct
 import datetime
 
 from cryptography import x509
+from . import keys
 from cryptography.x509.oid import NameOID
 from cryptography.hazmat.primitives import hashes, serialization
 from cryptography.hazmat.primitives.asymmetric import ec
@@ -31,6 +32,11 @@ def new_key(rng, curve=None):
     # private scalar from the seeded rng, so that cases replay
     curve = curve or ec.SECP256R1()
     bits = curve.key_size
+    if curve.name == "secp256r1":
+        # one key in eight has a coordinate that starts or ends like an encoding marker
+        k = keys.maybe_special_key_r1(rng)
+        if k is not None:
+            return k
     while True:
         d = rng.getrandbits(bits)
         try:
